@@ -12,107 +12,107 @@ CR = "Results hold in the symbolic (Dolev-Yao) crypto model of DESIGN §2.7: SHA
 claimed = {
  "C01": dict(
   text="validateLeaf (real ancestor-walker goroutine, real pourFunds/Supply/Drain, checkpoint read) is shown equivalent to the unbounded-integer predicate cp+inflow>=outflow for EVERY DAG shape with <=3 (quick) / <=4 (thorough) vertices after genesis, every tip, all canonical 64-bit amounts (currency<2^59 in shape harnesses, full width in the overflow harness), 3 symbolic wallets, with/without checkpoint entries and mixed data+spice tips; plus one-step checks of AddLeaf and CreateLeaf from every such ledger: only covered tips gain a child, failing tips are dropped with their index entry; the caller's context is live, already cancelled, or cancelled after the first poll (an interrupted validation must never confirm a parent).",
-  ref="DESIGN.md §3 C01",
+  ref="DESIGN.md §4 C01",
   bounds=["DAG: genesis + <=3 (quick) / <=4 (thorough) vertices, every parent choice (all shapes), every tip", "wallets A,B,C symbolic per vertex; amounts: all canonical pairs with currency < 2^59 (full 64-bit width in VH_C01_overflow)", "checkpoint: none, or symbolic entries for A and B", "walker / map iteration order: every permutation of maps with 2 entries inside repository loops and dag walks"],
   outside=["histories longer than the bound; more than 3 wallets; induction over histories is argued in DESIGN, not mechanised", "concurrent proposals (covered by C03 pair harnesses)", "truncation (C07)"]),
  "C03": dict(
   text="One-step checks from every ledger of the shape family (genesis + <=2/3 vertices, symbolic amounts) for AddLeaf (fresh / same vertex again / same transaction re-sealed / self-sealed / genesis-issued / empty) and CreateLeaf (fresh / replay / own wallet / genesis wallet / empty): afterwards no transaction hash in two live vertices, index[trx] = its holder, no dangling index entry, no vertex both live and checkpointed. The step harnesses run with a live, a cancelled and a late-cancelled caller context. Concurrent pairs CreateLeaf||CreateLeaf, CreateLeaf||AddLeaf, AddLeaf||AddLeaf of the same transaction under ALL schedules within 1-2 (quick) / 2-3 (thorough) preemptions.",
-  ref="DESIGN.md §3 C03",
+  ref="DESIGN.md §4 C03",
   bounds=["sequential: genesis + <=2 (quick) / <=3 (thorough) vertices, all shapes, symbolic amounts", "concurrent: 2 operations on a 2-vertex ledger, preemption bound 2 for CreateLeaf||CreateLeaf (quick), 1 for the other pairs; +1 in thorough", "scheduling points: channel ops, ab.mux, atomics, badger Update/View entry, first dag lock of each dag call"],
   outside=["badger Update/View are atomic (ErrConflict not modelled)", "more than two concurrent operations; schedules needing more preemptions", "after truncation (C07 harness re-submits moved vertices/transactions)"]),
  "C05": dict(
   text="Bounded symbolic execution of the real Supply/Transfer/Drain/New (go/ssa) with all four to six 64-bit operands symbolic; every assertion is an SMT query over ALL 2^64 values per operand (no sampling); loops are two constant iterations so no unwinding bound is needed.",
-  ref="DESIGN.md §3 C05",
+  ref="DESIGN.md §4 C05",
   bounds=["all canonical (sup < 10^18) operand triples, full 64-bit width; New: sup < 2*10^18"],
   outside=["non-canonical operands at the primitives (ingress harness covers admission)"]),
  "C06": dict(
   text="The real CalculateBalance (real walker goroutine, checkpoint read, pourFunds, Supply/Drain) returns exactly cp + inflow - outflow over the chosen tip and its ancestors in unbounded integers, an error iff that is negative (or an accumulator overflows), for every DAG shape in the bound, every queried wallet (including absent and self-transferring ones); read-only.",
-  ref="DESIGN.md §3 C06",
+  ref="DESIGN.md §4 C06",
   bounds=["DAG: genesis + <=3 (quick) / <=4 (thorough) vertices, all shapes, <=3 tips; which tip is used = nondeterministic map order", "3 symbolic wallets + an absent one; canonical amounts with currency < 2^59"],
   outside=["cross-node agreement beyond 'result is a function of the vertex set and tip' ", "larger DAGs"]),
  "C09": dict(
   text="After one AddLeaf / CreateLeaf step from every ledger of the shape family: every live vertex is stored under its own hash, has an edge from exactly its declared parents that are live, absent declared parents are checkpointed, the graph is acyclic (Kahn), rejected additions leave nothing; created vertices take tips as parents and weight max+1.",
-  ref="DESIGN.md §3 C09",
+  ref="DESIGN.md §4 C09",
   bounds=["genesis + <=2 (quick) / <=3 (thorough) vertices, all shapes, incoming parents case-split over all existing vertices"],
   outside=["self-authentication (hash/seal recomputation) is covered under C04", "declared weights of gossiped vertices are not validated by the code (observation)"]),
  "C10": dict(
-  text="After one AddLeaf / CreateLeaf step from every ledger of the shape family with symbolic issuer/sealer choices (including self-sealed, genesis-issued and empty incoming items): no non-genesis live vertex has issuer = sealer or issuer = genesis wallet or an empty transaction. VH_C10_load_vs_admission: a node that is being synced (LoadDag) while a self-sealed / genesis-issued / empty vertex is gossiped to it, followed by retry ticks of the orphan buffer, under all schedules within the preemption bound.",
-  ref="DESIGN.md §3 C10",
+  text="After one AddLeaf / CreateLeaf step from every ledger of the shape family with symbolic issuer/sealer choices (including self-sealed, genesis-issued and empty incoming items; proposals carrying spice, data or both): no non-genesis live vertex has issuer = sealer or issuer = genesis wallet or an empty transaction. VH_C10_load_vs_admission: a node that is being synced (LoadDag) while a self-sealed / genesis-issued / empty vertex is gossiped to it and a genesis-issued proposal arrives, followed by retry ticks of the orphan buffer, under all schedules within the preemption bound.",
+  ref="DESIGN.md §4 C10",
   bounds=["genesis + <=2 (quick) / <=3 (thorough) vertices; addresses are 1-byte strings (the guards only compare for equality)"],
   outside=["address aliasing (one key, several address strings) belongs to C04", "more than one gossip delivery racing with LoadDag"]),
  "C07": dict(
   text="The real truncate (three ancestor walks with the real walker goroutine, fundsMemMap, storage writes, vertex deletion) runs with the cut depth made small (newHashAtDepth(1000) replaced by a harness-chosen depth; natively the history is padded so the production constant selects the same cut). Structure: for EVERY DAG shape with <=4 (quick) / <=5 (thorough) vertices and every depth the moved set is exactly the ancestry of one live vertex, every moved vertex/transaction stays readable, identical and indexed, nothing else leaves the DAG, a failed truncation moves nothing. Funds: on chains/diamonds with enumerated party patterns (incl. self-transfer), symbolic amounts and optional earlier checkpoint: checkpoint = previous + unbounded-integer net flow of exactly the moved set; balance of every wallet and the validation verdict of the tip are unchanged; moved vertices/transactions are refused on re-submission.",
-  ref="DESIGN.md §3 C07",
+  ref="DESIGN.md §4 C07",
   bounds=["structure: genesis + 4 (quick) / 5 (thorough) vertices, all shapes, every cut depth 1..n, concrete parties/amounts (vertex 1 is data-only, vertex 2 a self-transfer, so both special shapes are moved by deep cuts)", "funds: genesis + 3 vertices (chain or diamond), 4 party patterns per vertex incl. issuer = receiver, all canonical amounts with currency < 2^59, cut depth 1..2, with/without an earlier checkpoint (i.e. a second truncation), queried wallet A/B/C", "pre-state assumed to satisfy C01 (every confirmed vertex covered in its own history)"],
   outside=["the production cut depth 1000 and DAGs above the bound (replays pad to 1000)", "a data-only tip whose declared parent is moved by a very shallow cut is afterwards rejected for its missing parent (observation, needs a tip referring to a >1000-deep parent in production)", "balance seen through a side tip that does not descend from the cut", "truncation racing with proposals (truncate holds the ledger lock throughout)"]),
  "C13": dict(
   text="Every delivery order (with a duplicate and 0..2 retry ticks between deliveries) of a valid 3-vertex history in three shapes ends, after at most 40 further retry ticks, in the parents-first ledger: every vertex admitted exactly once with its declared edges, buffer drained; orphans are reported and parked once with an incremented counter, a dangling orphan is retried exactly 26 times and dropped; insert's bounds are decided for every counter value and the full buffer; the retry path re-runs the duplicate / sealed-transaction gates. The retry loop is the real getNext + addLeafMemorized driven by the harness instead of the 2 s ticker.",
-  ref="DESIGN.md §3 C13",
+  ref="DESIGN.md §4 C13",
   bounds=["3 vertices above genesis, 3 shapes x 6 delivery orders x duplicate yes/no x 0..2 ticks after each delivery", "creation timestamps: four concrete orders (increasing, equal, decreasing by 1 s and by 3 s, i.e. clock skew between sealing nodes), chosen per path", "VH_C13_late_invalid_parent: a parked child whose parent later fails validation is never admitted", "retry counter symbolic 0..100 in the counter lemma"],
   outside=["more than 3 vertices in flight; the 500-entry capacity is checked only at exactly 500 (pre-filled buffer)", "the ticker goroutine itself (its data race with insert belongs to C18)"]),
  "C19": dict(
   text="vertex<->protobuf and transaction<->protobuf mappings: for symbolic field contents (strings and bytes fields of length 0..3 incl. nil and empty, all 64-bit integers, any int64 nanosecond timestamp, 32 symbolic bytes per hash) every signed field comes back identical; the mapping's own validity predicate is decided (encode refuses only incomplete transactions, decode additionally refuses the exact epoch timestamp).",
-  ref="DESIGN.md §3 C19",
+  ref="DESIGN.md §4 C19",
   bounds=["string/bytes fields: nil, empty, or 1..3 arbitrary bytes; integers and timestamps full width"],
   outside=["msgpack pairs (vmihailenco Marshal / shamaton Unmarshal) are reflection/unsafe driven and cannot be executed symbolically: ASSUMED ideal", "the protobuf wire codec (modelled as a deep copy with empty bytes -> nil); fields longer than 3 bytes (the mappings have no length-dependent behaviour except the 32-byte hash conversions, which C15 covers)"]),
  "C20": dict(
-  text="aeswrapper.Decrypt / Encrypt and fileoperations.SaveWallet / ReadWallet executed symbolically over an ideal AEAD: a file of ANY length 0..48 with any key length never panics and is an error unless it is literally what Encrypt produced under the same key; every truncation length, every single-byte change, every other key (all key bytes symbolic) and malformed passwords yield an error and the zero wallet; the round trip returns the identical key pair and address.",
-  ref="DESIGN.md §3 C20",
+  text="aeswrapper.Decrypt / Encrypt and fileoperations.SaveWallet / ReadWallet executed symbolically over an ideal AEAD: a file of ANY length 0..48 with any key length never panics and is an error unless it is literally what Encrypt produced under the same key; every truncation length, every single-byte change, every other key (all key bytes symbolic) and malformed passwords yield an error and the zero wallet; the round trip returns the identical key pair and address, whether the path held nothing, a shorter or a longer file before the save (os.WriteFile and os.OpenFile/Write/Sync/Close are modelled over one file table: O_TRUNC, O_APPEND and in-place overwrite).",
+  ref="DESIGN.md §4 C20",
   bounds=["file length 0..48 symbolic with symbolic content; keys 16/24/32/other lengths, all bytes symbolic; plaintext 0..8 bytes (aeswrapper) or the wallet token (fileoperations)"],
   outside=["AES-GCM itself (ideal AEAD: Open succeeds iff key, nonce and ciphertext are literally a recorded Seal)", "GOB and PEM/x509 codecs (ideal codec)", "os file system faults"]),
  "C17": dict(
-  text="SaveAwaitedTransaction / RemoveAwaitedTransaction / ReadTransactions (with set/add/read/remove, hex and bytes.Split executed from source, over a key/value model of bigcache) against a map-based model: every sequence of <=3 (quick) / <=4 (thorough) calls over 3 transactions whose issuer and receiver are symbolic among two addresses (issuer = receiver and shared receivers included), listing checked for both addresses; plus every pair save||save, save||remove, save||read on a shared receiver under ALL schedules within 1 (quick) / 2 (thorough) preemptions.",
-  ref="DESIGN.md §3 C17",
+  text="SaveAwaitedTransaction / RemoveAwaitedTransaction / ReadTransactions (with set/add/read/remove, hex and bytes.Split executed from source, over a key/value model of bigcache) against a map-based model: every sequence of <=3 (quick) / <=4 (thorough) calls over 3 transactions whose issuer and receiver are symbolic among two addresses (issuer = receiver and shared receivers included), listing checked for both addresses; plus every pair save||save, save||remove, save||read with all four parties symbolic among the two addresses (shared receiver, shared issuer with different receivers, crossed, self-addressed), from a cache where a third transaction awaits / was saved and removed (emptied list left behind) / was never saved, under ALL schedules within 1 (quick) / 2 (thorough) preemptions.",
+  ref="DESIGN.md §4 C17",
   bounds=["3 transactions, 2 addresses (symbolic), call sequences of length <=3 (quick) / <=4 (thorough)", "concurrent: 2 calls, preemption bound 1 (quick) / 2 (thorough), scheduling points at every cache call and mutex operation"],
   outside=["bigcache expiry AND capacity eviction (HardMaxCacheSize): the model never evicts, i.e. both count as 'expired' in the property's sense (observation in DESIGN §5: every list rewrite appends a new copy to a 1 MB shard, so long lists are evicted early); more than two overlapping calls", "msgpack encoding of the stored transaction (ideal codec)"]),
  "C15": dict(
   text="Every RPC handler of the notary (9), gossip (6 + the missing-parent fetch receive path) and webhooks (2) services is executed symbolically on every request shape the protobuf decoder can produce: every bytes field of symbolic length 0..40 (32 = hash size) with arbitrary content, strings empty or not, every sub-message / repeated element present or absent, collaborators (verifier, ledger, cache, flash memory, pipe, peers) answering nondeterministically. Every implicit Go panic condition (slice-to-array conversion, nil dereference, index, nil map ...) on every path is an SMT query; panics are identified by (function, source line text). A request refused at a verification step must have called no state-changing collaborator method.",
-  ref="DESIGN.md §3 C15",
+  ref="DESIGN.md §4 C15",
   bounds=["bytes fields 0..40 bytes, strings 0..1 bytes, repeated fields 0..2 elements (one possibly nil)", "one parent-fetch recursion level in the missing-parent path"],
   outside=["the protobuf wire decoder and gRPC internals; real collaborators (doubles answer nondeterministically, which over-approximates them)", "updateDag's receive loop needs a live gRPC stream: only its validate+map step is covered", "requests rejected AFTER all checks passed but after state changed are recorded as known findings (KNOWN_FINDINGS.json), partitioned by (handler, failing collaborator)"]),
  "C04": dict(
-  text="(1) GetMessage of two transactions (one of fixed small shape with symbolic content, one of any shape with text fields 0..3 bytes) equal => time, amount and total text bound (field boundaries are NOT: known finding). (2) wallet.Helper.AddressToPubKey on addresses assembled from any version byte, any key length 0..34 and a checksum that is the genuine one, the one of the same key under the standard version byte, or any other four bytes (exhaustive split): accepted => 32-byte key, and two different accepted strings never carry the same key. (3) Helper.Verify under an honest key accepts only exactly the signed (message, digest, signature). (4) a vertex honestly signed by three real wallets (optionally countersigned, optionally self-addressed) and altered in any ONE of 18 signed fields is rejected by the real Vertex.verify; two multi-field alterations that pass are pinned as known findings.",
-  ref="DESIGN.md §3 C04", note=CR,
-  bounds=["text fields 0..3 bytes (t') / fixed 2+1+1+1 bytes (t); numeric fields full width", "addresses: version byte symbolic, key length 0..34, checksum genuine / re-versioned / any other 4 bytes; assumed: the 4-byte checksum does not collide between the two version readings of one key", "single-field mutations: 18 fields, new value arbitrary of the same length (text) / full width (numbers, hashes, signatures)"],
+  text="(1) GetMessage of two transactions (one of fixed small shape with symbolic content, one of any shape with text fields 0..3 bytes) equal => time, amount and total text bound (field boundaries are NOT: known finding). (2) wallet.Helper.AddressToPubKey on addresses assembled from any version byte, any key length 0..34 and a checksum that is the genuine one, the one of the same key under the standard version byte, or any other four bytes (exhaustive split): accepted => 32-byte key, and two different accepted strings never carry the same key. (3) Helper.Verify under an honest key accepts only exactly the signed (message, digest, signature). (4) a vertex honestly signed by three real wallets (optionally countersigned, optionally self-addressed) and altered in any ONE of 21 ways (18 signed fields, 3 signatures extended by 1..2 trailing bytes; creation and sealing instants are inputs given as seconds + nanoseconds) is rejected by the real Vertex.verify; two multi-field alterations that pass are pinned as known findings.",
+  ref="DESIGN.md §4 C04", note=CR,
+  bounds=["text fields 0..3 bytes (t') / fixed 2+1+1+1 bytes (t); numeric fields full width", "addresses: version byte symbolic, key length 0..34, checksum genuine / re-versioned / any other 4 bytes; assumed: the 4-byte checksum does not collide between the two version readings of one key", "single-field mutations: 21 kinds, new value arbitrary of the same length (text) / full width (numbers, hashes, signatures)"],
   outside=["attacks on Ed25519 / SHA-256 themselves; base58 character-set errors", "mutations changing several fields at once beyond the two pinned classes", "admission beyond Vertex.verify (the ledger-level gates are C03/C09/C10)"]),
  "C12": dict(
-  text="The real verifyGossipers, GossipVrx and gossipVertex with the real wallet.Helper: for every pair of list entries drawn from nine adversary-assembled templates (an honest peer's genuine signature for another item, its parent-fetch signature over the bare item hash, garbage digests of length 31..33 and garbage signatures, this node's own entry with the correct public digest and a garbage signature, the adversary's own valid entry, a signature by the adversary's key under an honest address, ...) an honest address is in the verified set iff that node really signed (its address, this item); the receiving node still processes the vertex and still forwards it to a peer that has not validly signed.",
-  ref="DESIGN.md §3 C12", note=CR,
+  text="The real verifyGossipers, GossipVrx / gossipVertex and GossipTrx / gossipTransaction with the real wallet.Helper (optionally after the node has verified the honest entries of ANOTHER item in earlier gossip): for every pair of list entries drawn from nine adversary-assembled templates (an honest peer's genuine signature for another item, its parent-fetch signature over the bare item hash, garbage digests of length 31..33 and garbage signatures, this node's own entry with the correct public digest and a garbage signature, the adversary's own valid entry, a signature by the adversary's key under an honest address, ...) an honest address is in the verified set iff that node really signed (its address, this item); the receiving node still processes the vertex / stores the transaction and still forwards it to a peer that has not validly signed.",
+  ref="DESIGN.md §4 C12", note=CR,
   bounds=["lists of 2 entries from 9 templates (81 lists), item hashes symbolic (32 bytes), 3 nodes (this node, an honest peer, the adversary)"],
   outside=["lists longer than 2; networks (C11); honest signatures on messages other than gossiper entries and parent-fetch requests"]),
  "C16": dict(
   text="The real notary handlers over the real cache.Hippocampus (bigcache model), the real dataprovider.Cache and the real wallet.Helper, ledger double sealing each transaction at most once: every sequence of <=3 (quick) / <=4 (thorough) calls from a menu of 15 honest and dishonest calls (propose contract / transfer / with a foreign issuer key; confirm genuine / countersigned by a stranger; reject by receiver / by stranger / forged; challenge + waiting; replayed challenge with another key; unissued challenge; balance by owner then by another key and with a garbage signature; confirm with a forged countersignature; stale-challenge replay after use; confirm carrying a copy of the issuer's signature as countersignature), from the states 'nothing proposed' and 'contract awaiting', against a reference state machine: sealed only by an issuer-signed transfer, a receiver-countersigned confirm or a receiver-signed reject of an awaiting contract, at most once; refused calls leave the awaiting list unchanged; reads answer only for the owner's key and a server-issued challenge.",
-  ref="DESIGN.md §3 C16", note=CR,
+  ref="DESIGN.md §4 C16", note=CR,
   bounds=["call sequences of length 3 (quick) / 4 (thorough) over 15 call kinds, 2 start states", "one contract and one transfer, three wallets"],
   outside=["challenge expiry (no timer fires within a run); concurrent duplicate calls; the static balance request can be replayed by whoever captured a genuine one (observation)", "ledger behaviour (double implementing C03's contract)"]),
  "C14": dict(
   text="The real StreamDAG goroutine (real ancestor walker, 100-slot channel) feeds the real LoadDag of a fresh book for EVERY DAG shape with <=4 (quick) / <=5 (thorough) vertices after genesis and every tip / ancestor iteration order: the target is loaded, holds exactly the peer's vertices, parent links, transaction index and genesis wallet, passes the C03/C09 structure checks, answers balance queries identically (symbolic amounts on chains) and gives the same verdict on a follow-up gossip vertex. VH_C14_weight_window: after syncing, a vertex is admitted by the loaded node iff the source admits it, over declared weights at and around the truncation mark (one divergence is a pinned known finding). Every single corruption of a valid stream (vertex repeated, transaction carried by two vertices, vertex missing, second self-sealed vertex, empty transaction, dangling parent reference, empty stream; every position) leaves the target not loaded with a reported cause.",
-  ref="DESIGN.md §3 C14",
+  ref="DESIGN.md §4 C14",
   bounds=["source: genesis + 4 (quick) / 5 (thorough) vertices, all shapes, map iteration orders of maps with <=3 entries", "corruptions: 7 kinds x every position on all 4-vertex shapes"],
   outside=["the gRPC transport (C15/C19 cover the receive path and the mapping)", "a truncated source cannot be synced from: known finding", "LoadDag does not restore the weight mark of the source (latest accepted weight starts at the maximum loaded weight): the loaded node accepts a low declared weight the source refuses: known finding", "LoadDag does not verify signatures (honest-peer assumption of the protocol)", "LoadDag racing with admissions (C10 covers the identity rules in that race)"]),
  "C02": dict(
-  text="Ledgers built by the REAL operations from a genesis ledger: (chain) 3 (quick) / 4 (thorough) successive CreateLeaf proposals with enumerated party patterns (A->B, B->A, A->A, B->C) and symbolic amounts: on the confirmed set (live vertices with a child) no wallet has spent more than it received (unbounded integers over the harness' own record of what was offered) and the balances the node reports for all wallets add up to the genesis supply; (merge) two sibling spends, one proposed locally and one delivered by gossip from another node, then a proposal merging both tips: each confirmed spend is covered in its own history (must hold) while the union may overdraw (pinned known finding).",
-  ref="DESIGN.md §3 C02",
-  bounds=["chain: 3 (quick) / 4 (thorough) proposals, 4 party patterns each, all canonical amounts with currency < 2^59", "merge: one 3-operation scenario with symbolic amounts"],
+  text="Ledgers built by the REAL operations from a genesis ledger: (chain) 3 (quick) / 4 (thorough) successive CreateLeaf proposals with enumerated party patterns (A->B, B->A, A->A, B->C) and symbolic amounts: on the confirmed set (live vertices with a child) no wallet has spent more than it received (unbounded integers over the harness' own record of what was offered) and the balances the node reports for all wallets add up to the genesis supply; each proposal with or without data (a contract that also moves spice); (gossip chain) the same history delivered by AddLeaf from another node under a live, cancelled or late-cancelled context; (merge) two sibling spends, one proposed locally and one delivered by gossip from another node, then a proposal merging both tips: each confirmed spend is covered in its own history (must hold) while the union may overdraw (pinned known finding).",
+  ref="DESIGN.md §4 C02",
+  bounds=["chain and gossip chain: 3 (quick) / 4 (thorough) operations, 4 party patterns each, with/without data, 3 context kinds per delivery, all canonical amounts with currency < 2^59", "merge: one 3-operation scenario with symbolic amounts"],
   outside=["more nodes / longer interleavings of proposals and gossip (the two-node case is the merge scenario: the second node's vertex arrives by AddLeaf)", "truncation inside the history (C07 checks the checkpoint arithmetic)", "trusted sealing nodes"]),
  "C08": dict(
   text="Every consumer of the ancestor walker (CalculateBalance, ReadDAGTransactionsByAddress, validateLeaf, AddLeaf, CreateLeaf, StreamDAG with one and with two tips, truncate) runs against the REAL producer goroutine of heimdalr/dag (which holds the graph read lock while blocked on its send) under the engine's scheduler: ALL schedules within 2 (quick) / 3 (thorough) preemptions, ledgers with 1..3 (truncate: 2..4) ancestors, the caller's context cancelled after 0..n+1 polls, signature verification failing at any ancestor (symbolic), every truncation depth. End-state verdicts: no goroutine blocked forever after the operation returned (leak), no deadlock, and a graph write plus the ledger lock complete afterwards. The background truncation loop is driven with an honest, an above-the-mark and a maximal declared weight followed by 55 admissions. A DAG stream consumed while a proposal writes is searched for lock cycles (known finding).",
-  ref="DESIGN.md §3 C08",
+  ref="DESIGN.md §4 C08",
   technique=TECH + "; goroutine schedules enumerated exhaustively up to a preemption bound (scheduling points: channel operations, select, ledger lock, atomics, first dag lock of each dag call, storage calls)",
   bounds=["1..3 ancestors below the tip (2..4 for truncate), cancellation point 0..n+1, preemption bound 2 (quick) / 3 (thorough)", "truncate depth 1..n via the harness redirect of newHashAtDepth", "stream-vs-writer: bug-hunting search (not exhaustive) because of the known lock cycle"],
   outside=["schedules needing more preemptions; longer histories; more than one concurrent operation besides the walker goroutines (pairs of operations are C03/C18)", "badger and the logger are models / doubles"]),
  "C18": dict(
-  text="Workloads of concurrent ledger operations on a loaded node (two proposals + one gossip delivery; a proposal against balance / vertex / history / transaction reads; a DAG stream against a balance read; a truncation against lock-free and locked reads and a proposal; the background truncation loop reacting to an admitted vertex while proposals arrive; the orphan buffer's retry ticker against parking) are executed on the real code by the engine's scheduler with a happens-before tracker: vector clocks over goroutine start, channel operations, mutex release/acquire, atomic store->load and the atomic storage models; every load/store of a heap cell (whole-struct accesses also count as accesses to each field) and every map operation is recorded; two accesses to one cell, one a write, unordered by happens-before in any explored schedule = race. Candidates are confirmed natively by repeating the workload under `go test -race` (real race detector).",
-  ref="DESIGN.md §3 C18",
+  text="Workloads of concurrent ledger operations on a loaded node (two proposals + one gossip delivery; a proposal against balance / vertex / history / transaction reads; a DAG stream against a balance read; a truncation against lock-free and locked reads and a proposal; the background truncation loop reacting to an admitted vertex while proposals arrive; the orphan buffer's retry ticker against parking; a truncation and a proposal against the retry ticker with a non-empty orphan buffer) are executed on the real code by the engine's scheduler with a happens-before tracker: vector clocks over goroutine start, channel operations, mutex release/acquire, atomic store->load and the atomic storage models; every load/store of a heap cell (whole-struct accesses also count as accesses to each field) and every map operation is recorded; two accesses to one cell, one a write, unordered by happens-before in any explored schedule = race. Candidates are confirmed natively by repeating the workload under `go test -race` (real race detector).",
+  ref="DESIGN.md §4 C18",
   technique="happens-before (vector clock) analysis of the repository's go/ssa executed under gosym's scheduler over a bounded number of schedules; SMT decides the data-dependent branches (symbolic amounts); candidates confirmed with the Go race detector",
-  bounds=["6 workloads, 2-4 goroutines each plus the dependency's walker goroutines; up to 1500 (quick) / 20000 (thorough) schedules per workload (bounded search, not exhaustive: every explored schedule stands for its happens-before class)"],
+  bounds=["7 workloads, 2-4 goroutines each plus the dependency's walker goroutines; up to 1500 (quick) / 20000 (thorough) schedules per workload (bounded search, not exhaustive: every explored schedule stands for its happens-before class)"],
   outside=["accesses inside badger, bigcache and gRPC (their models are atomic sections by assumption)", "workloads other than the listed ones; the gossip node's peer map (gossiper.nodes is iterated without the lock in processLackingParent: observation, gossip package not part of these workloads)", "before the DAG is loaded (CreateGenesis / LoadDag write dagLoaded under the lock while DagLoaded reads it without)"]),
  "C11": dict(
-  text="A virtual network of REAL gossiper structs (real GossipVrx / gossipVertex / verifyGossipers / sendToAccountant / processLackingParent / GetVertex, real cache.Flashback over the bigcache model); peers are in-package clients that hand a deep copy of the message to the peer's real handler inside the goroutine that gossipVertex starts per peer, so delivery order = goroutine schedule. One vertex: EVERY connected topology on 3 (quick) / 4 (thorough) nodes, every origin, ALL delivery orders within 1 preemption: every node's ledger admits it exactly once, nobody forwards before its own ledger accepted, at most n(n-1) messages. All 38 connected 4-node topologies x 4 origins with the free (non-preemptive) schedule choices. Parent + child on 3 nodes (bounded search): nothing admitted twice, forward-after-accept; delivery of the child when it overtakes its parent is the pinned known finding.",
-  ref="DESIGN.md §3 C11",
+  text="A virtual network of REAL gossiper structs (real GossipVrx / GossipTrx / gossipVertex / gossipTransaction / verifyGossipers / sendToAccountant / processLackingParent / GetVertex, real cache.Flashback over the bigcache model); peers are in-package clients that hand a deep copy of the message to the peer's real handler inside the goroutine the code starts per peer, so delivery order = goroutine schedule. One vertex: EVERY connected topology on 3 (quick) / 4 (thorough) nodes, every origin, ALL delivery orders within 1 preemption; all 38 connected 4-node topologies x 4 origins x one arbitrarily delayed directed link; the 4-cycle (with/without chord) under every order of the forwarding goroutines (bounded in quick, exhaustive in thorough): every node's ledger admits it exactly once, the origin's ledger is never offered its own vertex, nobody forwards before its own ledger accepted, at most n(n-1) messages. Awaited transaction: gossiped on every 3-node topology (one delayed link), then the vertex sealing it, then a late duplicate of the first message: stored once per node, sent at most once per link; two copies reaching a node together (4 nodes, 1 preemption). Parent + child on 3 nodes (bounded search): nothing admitted twice, forward-after-accept; delivery of the child when it overtakes its parent is the pinned known finding.",
+  ref="DESIGN.md §4 C11",
   technique=TECH + "; message delivery orders = goroutine schedules enumerated by the engine's scheduler",
-  bounds=["n = 3 all graphs exhaustively at preemption bound 1 (quick; n = 4 in thorough); n = 4 all connected graphs with non-preemptive schedule choices (budget 4000 schedules)", "two items: 3 nodes, budget 8000 schedules (not exhaustive)"],
-  outside=["ledger double (contract of C03/C13), transparent signatures (forgery: C12), no recent-hash expiry within a run (20 s window), gRPC delivers or returns an error", "n >= 5, more than two items in flight, awaiting-transaction gossip (GossipTrx shares the forwarding code path)"]),
+  bounds=["n = 3 all graphs exhaustively at preemption bound 1 (quick; n = 4 in thorough)", "n = 4: all connected graphs x origin x (no or one delayed directed link), otherwise one fixed delivery order", "4-ring: 3000 schedules (quick) / all ~300000 non-preemptive schedules (thorough)", "transactions: 3 nodes all graphs (delayed link), 4-node kite at preemption bound 1", "two items: 3 nodes, budget 8000 schedules (not exhaustive)"],
+  outside=["ledger double (contract of C03/C13), transparent signatures (forgery: C12), no recent-hash expiry within a run (20 s window), gRPC delivers or returns an error", "n >= 5, more than two items in flight"]),
 }
 
 NA_DEFAULT = "check not built yet in this session; see DESIGN.md §6 build order"
